@@ -382,3 +382,10 @@ def run(cx: Cx):
     comp = Sym(addc.params[1])
     check_keyed_insert(cx, addc.qualname, CLOC, Attr(Sym(addc.params[0]), 'components'), App('type', (comp,)), comp)
     check_keyed_delete(cx, remc.qualname, CLOC, Attr(Sym(remc.params[0]), 'components'), Sym(remc.params[1]))
+    from .common import check_no_stateful_memo
+    check_no_stateful_memo(cx)
+    from .common import include_premises
+    include_premises(cx, ['C04'], 'the listings mirror the resident agents only if residency itself is kept by add_agent / remove_agent alone',
+                     only=lambda o: o.rule in ('R-DISC', 'R-ATOMIC') and ('agents' in o.key or o.function.endswith('.add_agent') or
+                                                                         o.function.endswith('.remove_agent')))
+
